@@ -14,6 +14,29 @@ CHECKS = {
                 "parse_name (cross-checked against OpenSSL's cipher list)",
         "technique": "exhaustive enumeration of the whole input domain (65 536 code points) against a reference model",
     },
+    "C16": {
+        "category": "model_checking",
+        "text": "Window-boundary product on the real QuicSession.get_full_packet_number (all truncated values for 1- and "
+                "2-byte encodings at every boundary largest value up to 2^62, +-3 neighbourhoods for 3/4 bytes, every "
+                "(space, direction) slot with the others holding foreign values) plus an explicit-state BFS to fixpoint "
+                "over packet histories with gaps and reordering whose state is the set of largest-packet-number slots; "
+                "oracle is RFC 9000 A.3 in integer arithmetic; every BFS state is re-derived on a fresh object.",
+        "design_ref": "DESIGN.md section 5, C16",
+        "note": "trusted: the A.3 transcription in mc/model/rfc9000.py; state injection assumes the function reads only the "
+                "packet_number_* dictionaries (validated by path replay of every BFS state)",
+        "technique": "exhaustive boundary product + explicit-state BFS over the real method with path-replay conformance",
+    },
+    "C17": {
+        "category": "model_checking",
+        "text": "Depth-bounded exhaustive operation sequences: every sequence of well-formed frames (all RFC 9000/9221 types, "
+                "varint widths 1/2/4/8, all STREAM flag combinations) to depth 2 (full alphabet) / 3 (reduced) is parsed by "
+                "the real parse_frames and compared with the encoder's ground truth; every byte string up to length 4 over a "
+                "40-symbol alphabet (thorough: length 3 over all bytes) is parsed under a watchdog for termination and "
+                "checked for invented data.",
+        "design_ref": "DESIGN.md section 5, C17",
+        "note": "trusted: the frame encoder mc/model/quicframes.py; byte strings longer than the bound are not covered",
+        "technique": "exhaustive enumeration of frame sequences and of all short byte strings against an encoder model",
+    },
 }
 
 NOT_YET = "check not built yet in this round (planned: bounded exhaustive exploration, see DESIGN.md section 5)"
